@@ -41,6 +41,20 @@ def _cases(tier, rng):
            'items': [0, 1, 2, 3, 4, 5]}
     yield {'kind': 'mux', 'term': [['roll', 2, 2, [['tee', 'zip', [[['filter', ['is_even']]], [['identity']]]]]]], 'items': [1, 1, 2, 3, 5, 5, 6, 7]}
     yield {'kind': 'mux', 'term': [['roll', 3, 3, [['split', ['mod', 2], [['count', True]]]]]], 'items': [0, 0, 1, 0, 1, 1, 2]}
+    # a terminator (user function called at the completion of a key) that raises for some lifetimes, in the last branch of a tee_map
+    # whose other branch can hold a pending value, the error ignored, under parents that reuse the slot: whatever happens to the failing
+    # lifetime, the later ones emit what they emit alone (outside the model: its terminators are total)
+    for _ in range({'quick': 40, 'thorough': 400, 'search': 20}[tier]):
+        k, rr = rng.choice([(2, 1), (3, 0), (3, 1), (4, 2)])
+        sc = ['scan', ['add'], 0, True, ['raise_if_mod', k, rr]]
+        other = rng.choice([[['filter', ['is_even']], ['last']], [['filter', ['lt', 3]], ['last']], [['last']], [['filter', ['is_even']]]])
+        tee = ['tee', rng.choice(['zip', 'zip', 'combine_latest']), rng.choice([[other, [sc]], [[sc], other], [other, [['count', True]], [sc]]])]
+        inner = [tee, ['ignore']]
+        ctx = rng.choice([['split', ['floordiv', 3]], ['split', ['mod', 2]], ['roll', 2, 2], ['roll', 3, 3], ['group_by', ['mod', 2]]])
+        items = [rng.randrange(9) for _ in range(rng.choice([5, 8, 13]))]
+        if ctx[0] == 'split' and ctx[1] == ['floordiv', 3]:
+            items = sorted(items)
+        yield {'kind': 'mux', 'term': [ctx + [inner]], 'items': items, 'no_model': True}
     n = {'quick': 1500, 'thorough': 10000, 'search': 600}[tier]
     for _ in range(n):
         g = muxgen.Gen(rng, {'nest': 1, 'max_len': 3, 'math': rng.random() < 0.3})
@@ -105,6 +119,18 @@ def _oracle(case, r):
                         % (st[0], muxprop.json.dumps(st[1:-1])[:60], h['key'], h['items'], str(o['items'])[:200],
                            muxprop.json.dumps(inner)[:200], str(want)[:200]))
     return None
+
+
+def model_cmds(case):      # noqa: F811
+    return [] if case.get('no_model') else muxprop.model_cmds(case)
+
+
+def model_result(case, ans):      # noqa: F811
+    return {} if case.get('no_model') else muxprop.model_result(case, ans)
+
+
+def compare(case, r, m):      # noqa: F811
+    return None if case.get('no_model') else muxprop.compare(case, r, m)
 
 
 def nontrivial(case, r):
